@@ -10,9 +10,10 @@ import SevenZ.Driver.Aes
 import SevenZ.Driver.Crc
 import SevenZ.Driver.Writer
 import SevenZ.Driver.Conc
+import SevenZ.Driver.Progress
 open SevenZ.Driver
 
-def handlers : List (String → List String → Option String) := [primHandler, headerHandler, pathHandler, decHandler, readerHandler, specHandler, listingHandler, aesHandler, crcHandler, writerHandler, concHandler]
+def handlers : List (String → List String → Option String) := [primHandler, headerHandler, pathHandler, decHandler, readerHandler, specHandler, listingHandler, aesHandler, crcHandler, writerHandler, concHandler, progHandler]
 
 def step (line : String) : String :=
   match (line.trimAscii.toString.splitOn " ").filter (· ≠ "") with
